@@ -254,7 +254,7 @@ func cmdCheck(args []string) int {
 			for _, e := range f.SpecErrors {
 				fails = append(fails, failure{Unit: r.Unit, Func: f.Name, Ob: ObReport{Name: "spec_error", Kind: "engine", Answer: e}, FullName: f.Name + "/spec_error", Reason: e, Treatment: f.Treatment})
 			}
-			if len(f.Obligations) == 0 && f.GenPanic == "" {
+			if len(f.Obligations) == 0 && f.GenPanic == "" && f.Treatment == "full" {
 				fails = append(fails, failure{Unit: r.Unit, Func: f.Name, Ob: ObReport{Name: "no_obligations", Kind: "engine", Answer: "zero obligations generated"}, FullName: f.Name + "/no_obligations", Reason: "zero obligations", Treatment: f.Treatment})
 			}
 			for _, o := range f.Obligations {
